@@ -178,6 +178,26 @@ pub fn all() -> Vec<PropDef> {
             replay: versions::replay,
         },
         PropDef {
+            id: "C15",
+            level: "exploration",
+            rule: "the real roughenough-server binary is started from generated configurations: the repository's example.cfg (ports rewritten), a pairwise-covering set over {workers>1, health port, client_stats, file/ENV} with batch_size {1,2,63,64}, fault {0,1,50}, status_interval {1,10,600}, defaults left unwritten, an all-decimal-digit seed, then proptest draws over num_workers 1..=16 x the same options; oracle within 10 s: N distinct worker-i threads in /proc, 64*N requests from distinct sockets each answered exactly once (strictly verified when fault = 0), exactly N distinct delegated keys, 3*N sequential health connections each reading the exact HTTP 200 text then EOF while UDP keeps being answered, workers still alive after 1 s, no panic text. Non-trivial = configuration with >= 2 workers, a health port or client_stats; distinct by configuration tuple",
+            assumptions: &["ports are leased exclusively (bound once without SO_REUSE*, lock file); a lost port race is exit 2", "TCP health connections are made sequentially", "SO_REUSEPORT hashing spreads 64*N distinct source ports over all N workers (miss probability < 1e-12)"],
+            shards: s16,
+            timeout_s: |t| t.pick(400, 3600),
+            run: procs::run_c15,
+            replay: procs::replay_c15,
+        },
+        PropDef {
+            id: "C16",
+            level: "exploration",
+            rule: "cfgprobe process (the product's make_config + is_valid_config) on configurations written as a YAML file or as ROUGHENOUGH_<KEY> environment variables: boundary grid (min-1, min, typical, max, max+1, 255, 256, 300, 65535, 65536, 70000, -1, -200, 2^31, 2^32+k) for port, batch_size, fault_percentage, num_workers, health_check_port; status_interval within 1..=65535; client_stats spellings; seeds of length 62/63/64/65/66 and non-hex; missing required keys; unknown key; plus proptest integers; oracle = model of the documentation: in range => accepted with exactly the written value, otherwise refused (error, invalid or panic), never accepted with a different value. Non-trivial = value outside the type width of the field it lands in (wrap candidate) or negative; distinct by probe",
+            assumptions: &["ranges come from README and ServerConfig rustdoc as quoted in the property; values the documents do not classify (health port 0, status_interval 0 or > 65535) are not generated", "environment variable names are ROUGHENOUGH_ + upper-cased key as in the README table"],
+            shards: s16,
+            timeout_s: t_std,
+            run: procs::run_c16,
+            replay: procs::replay_c16,
+        },
+        PropDef {
             id: "C17",
             level: "exploration",
             rule: "bounded-exhaustive histories of the 8 recording operations x 3 addresses (v4+v6) x limits 1..=3 up to length 4 (quick) / 5 (thorough); random histories up to 10,000 ops with byte counts {0,1,7,1500}; splits across 1..=4 worker recorders with generated snapshot points merged by a real Reporter; traffic mixes served by an in-process Server with client_stats off/on; oracle = exactly-one-counter step invariant, tracked addresses <= limit, Aggregated == PerClient totals while no overflow, merged per-address sums == sums of recorded events, recorded totals == datagrams and replies seen on the sockets. Non-trivial = history that overflowed, split with >= 2 workers and >= 2 snapshots, or a traffic case; distinct by content",
@@ -186,6 +206,26 @@ pub fn all() -> Vec<PropDef> {
             timeout_s: t_std,
             run: stats::run,
             replay: stats::replay,
+        },
+        PropDef {
+            id: "C18",
+            level: "exploration",
+            rule: "real multi-worker server (num_workers in {1,2,4,8,16}, one value per worker process of the check) under seeded rounds of 1..=64 concurrent closed-loop client threads (classic / IETF / per-client / per-request mix, 20..=300 requests each, think time 0..=2 ms, nonces shared across clients, client_stats off/on, batch_size {1,2,8,64}); oracle per request: exactly one reply, strictly verified for the outstanding request under the single long-term key, no stray datagram; all worker threads alive and no panic text after every round; an unanswered request counts only when the kernel reports zero drops. Non-trivial = round with >= 2 workers, >= 2 clients and replies from >= 2 distinct delegated keys (the kernel really spread the load); distinct by round plan. Schedules are sampled, not controlled",
+            assumptions: &["OS scheduling and SO_REUSEPORT distribution are sampled (seeded plans, many rounds), not enumerated", "closed loop keeps <= 64 datagrams in flight, below the receive buffer"],
+            shards: |t| t.pick(10, 15),
+            timeout_s: |t| t.pick(400, 3600),
+            run: procs::run_c18,
+            replay: procs::replay_c18,
+        },
+        PropDef {
+            id: "C19",
+            level: "exploration",
+            rule: "real server (workers {1,4,16}, client_stats off/on) receives SIGINT or SIGTERM after a swept delay (0..=300 ms, around 100 ms and 1 s) while idle, under k closed-loop clients, or under an open-loop flood (valid / invalid / mixed) that keeps the receive queue non-empty; fixed grid + proptest plans; oracle: exit status 0 within 5 s, no panic text, every reply received before exit strictly valid; if the deadline passes the load is stopped to tell 'wedged by load' from 'never exits'. Non-trivial = signal delivered while requests were in flight (flood, or a reply within 5 ms of the signal); distinct by (workers, stats, signal, load, delay bucket)",
+            assumptions: &["signal delivery instants are sampled by sweeping the delay; the exact interleaving is not controlled", "5 s is >= 4x the designed worst case (100 ms poll + 1 s reporter sleep)"],
+            shards: |_| 6,
+            timeout_s: |t| t.pick(400, 3600),
+            run: procs::run_c19,
+            replay: procs::replay_c19,
         },
         PropDef {
             id: "C20",
